@@ -249,12 +249,13 @@ func TestCrashChild(t *testing.T) {
 
 // CrashVerdict is what the verifier prints.
 type CrashVerdict struct {
-	OK     bool   `json:"ok"`
-	Clause string `json:"clause,omitempty"`
-	Detail string `json:"detail,omitempty"`
-	Edges  int    `json:"edges"`
-	Acked  int    `json:"acked"`
-	InFlt  string `json:"in_flight"`
+	OK      bool   `json:"ok"`
+	Clause  string `json:"clause,omitempty"`
+	Detail  string `json:"detail,omitempty"`
+	Edges   int    `json:"edges"`
+	Acked   int    `json:"acked"`
+	InFlt   string `json:"in_flight"`
+	Orphans int    `json:"points_first_nodes_attached_and_compared"`
 }
 
 func dumpInline(hc *nats.Conn) ([]data.NodeEdge, error) {
@@ -502,6 +503,52 @@ func TestCrashVerify(t *testing.T) {
 			return
 		}
 	}
+	// acknowledged points of nodes that had no edge yet (the first half of a node creation: points first, edge second)
+	// cannot be read through the API until the edge exists: send the edge now, as a sender retrying after the crash
+	// would, and read the node
+	rA, rB := build(false), build(inflight >= 0)
+	attached := map[string]bool{}
+	for k := range rB.Edges {
+		attached[k[1]] = true
+	}
+	var orphans []string
+	for id, pts := range rA.NodePts {
+		if !attached[id] && len(pts) > 0 {
+			orphans = append(orphans, id)
+		}
+	}
+	sortStrings(orphans)
+	tAttach := time.Date(2002, 1, 1, 0, 0, 0, 0, time.UTC)
+	for _, id := range orphans {
+		err := client.SendEdgePoints(hc2, id, theRoot, data.Points{{Type: data.PointTypeTombstone, Time: tAttach}, {Type: data.PointTypeNodeType, Text: "variable", Time: tAttach}}, true)
+		if err != nil {
+			fail("content", "attaching node %s, whose points were acknowledged before the crash, fails: %v", id, err)
+			return
+		}
+		ns, err := client.GetNodes(hc2, theRoot, id, "", true)
+		if err != nil || len(ns) != 1 {
+			fail("content", "node %s cannot be read after its edge was sent: %v (%d nodes)", id, err, len(ns))
+			return
+		}
+		if dA := comparePoints("node "+id+" (points acknowledged before it had an edge)", ns[0].Points, rA.NodePts[id]); dA != "" {
+			if dB := comparePoints("node "+id, ns[0].Points, rB.NodePts[id]); dB != "" {
+				fail("content", "acknowledged node points written before the node had an edge did not survive: %s", dA)
+				return
+			}
+		}
+	}
+	if len(orphans) > 0 {
+		all, err := dumpInline(hc2)
+		if err != nil {
+			fail("unreadable", "cannot read the store after attaching %d nodes: %v", len(orphans), err)
+			return
+		}
+		if d := CheckHashes(all); d != "" {
+			fail("hash", "after attaching nodes whose points were written first: %s", d)
+			return
+		}
+	}
+	v.Orphans = len(orphans)
 }
 
 func reachableIn(r *RefStore, id string) bool {
